@@ -321,6 +321,7 @@ def run(prog, run):
         run.ok(r2d, pes.loc(), 'no part-owned field is written by the pass driver outside its guard (%d field writes seen)' % sum(len(v) for r in Wpe.values() for v in r.values()))
 
     r2e_predicates(prog, run, par)
+    r2f_claimed(prog, run, par)
 
     # ---- R3 encrypted send path
     r3 = run.rule('C17.R3', 'the encrypted send path serializes the outer message with the constant QXmpp::ScePublic; encrypted inbound '
@@ -567,3 +568,42 @@ def _exempt_enumerators(prog, g, attr):
         if can_accept:
             out.add(world)
     return out
+
+
+# --------------------------------------------------------------------------- R2f: a recognised sensitive element is consumed
+def r2f_claimed(prog, run, par):
+    rid = run.rule('C17.R2f', 'inside the sensitive region of the message parser, an arm that has recognised its element (tag / namespace / class predicate) never reports it as '
+                              'unhandled: "return false" there hands the element to the list of unknown extensions, which is written in every mode - a malformed attachment or '
+                              'reaction would be re-sent in the public part', floor=10)
+    n_arms = 0
+    for f, base in _codec_scope(prog, par):
+        if f.is_lambda:
+            continue
+        for i, n in f.returns():
+            if 'e' not in n:
+                continue
+            reg = _combine(base, region_of(f, i))
+            tests = []
+            for c, p in f.atomic_assertions_at(i):
+                if p is not True:
+                    continue
+                t = f.fmt(c, inline=True)
+                cn = f.nodes[f.skip(c)]
+                is_call_test = cn['k'] == 'call' and ((f.cname(cn) or '').endswith('checkElement') or ((f.sym(cn) or {}).get('name') or '').startswith('is') and cn.get('args')
+                                                       and f.fmt(cn['args'][0]) == 'p0')
+                is_cmp = f.binop(f.skip(c)) and f.binop(f.skip(c))[0] == '==' and ('p0.QDomElement::tagName()' in t or 'p0.QDomNode::namespaceURI()' in t)
+                if is_call_test or is_cmp:
+                    tests.append(t)
+            if reg != 'Sensitive' or not tests:
+                continue
+            n_arms += 1
+            run.instance(rid)
+            v = f.const_value(n['e'])
+            if v == ('bool', False):
+                run.violation(rid, '%s#recognised-element-unhandled' % f.outer_name(), f.loc(i),
+                              '%s returns false although it has recognised the element (%s) as part of the sensitive content: the caller stores it as an unknown extension, and '
+                              'those are serialized in the public part as well' % (f.display()[:50], tests[-1][:70]))
+            else:
+                run.ok(rid, f.loc(i), 'recognised element consumed', nontrivial=False)
+    if n_arms < 10:
+        raise AnalysisBroken('C17.R2f: only %d returns inside recognised-element arms of the sensitive region found' % n_arms)
